@@ -16,10 +16,11 @@ theorem C12_str (s : Seq) (ops : List SeqOp) :
     (s.run ops).str =
       (s.run ops).dir ++ (s.run ops).base ++ (s.run ops).frameRange ++ (s.run ops).pad ++ (s.run ops).ext := rfl
 
-/-- SetDirname: a directory gains a missing trailing separator; nothing else changes. -/
+/-- SetDirname: a directory gains a missing trailing separator ('/', or '\\' for a directory that
+    contains a backslash); nothing else changes. -/
 theorem C12_setDirname (s : Seq) (d : Bytes) :
     let s' := s.setDirname d
-    s'.dir = (if isSuffixOf ['/'] d then d else d ++ ['/']) ∧
+    s'.dir = (if isSuffixOf [Seq.dirSep d] d then d else d ++ [Seq.dirSep d]) ∧
     s'.base = s.base ∧ s'.ext = s.ext ∧ s'.pad = s.pad ∧ s'.zfill = s.zfill ∧
     s'.frameSet = s.frameSet ∧ s'.style = s.style := by
   simp [Seq.setDirname]
@@ -64,7 +65,7 @@ theorem C12_paths_follow (s : Seq) (ops : List SeqOp) (h : (s.run ops).frameSet.
     or not) / SetFrameSet(parsed) / Copy / Split has a frame set that re-creates itself from
     its range string … -/
 theorem C12_history_reparses (st : PadStyle) (txt : Bytes) (s : Seq) (ops : List SeqOp)
-    (h : Seq.parse st txt = .ok s) (hops : ∀ op ∈ ops, op ≠ SeqOp.normalize) :
+    (h : Seq.parse st txt = .ok s) (hops : ∀ op ∈ ops, op.derived = false) :
     Seq.Reparses (s.run ops) :=
   run_reparses s ops (parse_reparses_seq st txt s h) hops
 
@@ -72,7 +73,7 @@ theorem C12_history_reparses (st : PadStyle) (txt : Bytes) (s : Seq) (ops : List
     (as a value it is the same sequence; independence is by construction of the model:
     values are immutable) -/
 theorem C12_copy (st : PadStyle) (txt : Bytes) (s : Seq) (ops : List SeqOp)
-    (h : Seq.parse st txt = .ok s) (hops : ∀ op ∈ ops, op ≠ SeqOp.normalize) :
+    (h : Seq.parse st txt = .ok s) (hops : ∀ op ∈ ops, op.derived = false) :
     (s.run ops).copy = s.run ops :=
   copy_eq _ (C12_history_reparses st txt s ops h hops)
 
@@ -80,7 +81,7 @@ theorem C12_copy (st : PadStyle) (txt : Bytes) (s : Seq) (ops : List SeqOp)
     pad, pad width, pad style and extension, whose frames concatenated in order — a frame
     kept at its first occurrence, as in the original — are exactly the original's. -/
 theorem C12_split (st : PadStyle) (txt : Bytes) (s : Seq) (ops : List SeqOp)
-    (h : Seq.parse st txt = .ok s) (hops : ∀ op ∈ ops, op ≠ SeqOp.normalize)
+    (h : Seq.parse st txt = .ok s) (hops : ∀ op ∈ ops, op.derived = false)
     (fs : FrameSet) (hfs : (s.run ops).frameSet = some fs) :
     ((s.run ops).split).length = (splitOn ',' fs.frange).length ∧
     (∀ p ∈ (s.run ops).split, p.dir = (s.run ops).dir ∧ p.base = (s.run ops).base ∧
